@@ -32,6 +32,7 @@ func init() {
 			{"C11.R8", "q", "no lock across blocking channel operations", c11r8},
 			{"C15.R1", "q", "shared: bucket used only when READY (otherwise nil dereference ⇒ contained panic, no reply)", c15r1},
 			{"C11.R11", "q", "command line split on the ASCII space only", c11r11},
+			{"C12.R1", "q", "shared: request tokens (a lost token wedges every connection)", c12r1},
 		},
 	})
 }
@@ -228,6 +229,7 @@ func c11r3(c *Ctx) {
 	surf := len(f.CallsIn(recIf.Body, "memcache.ServerConn.Shutdown", "memcache.ServerConn.Close", "memcache.Response.Write")) > 0
 	_ = info
 	c.check(surf, R, f.Key+": recovered panic closes the connection or replies", c.pos(recIf), "Shutdown/Close/Write in the recover branch", "after a contained panic ServeOnce returns normally with no reply written and the connection left open: the client of that command waits forever")
+	c11r3b(c)
 }
 
 var requestPathFuncs = []string{
